@@ -1059,3 +1059,82 @@ def r_ispen(A, ctx, scope, rule="R-ISPEN"):
                 except (Unsupported, Raised) as e:
                     ctx.ob(rule, key, None, detail=f"not lifted: {e}")
     ctx.floor(rule, n, scope.get("floor", 8))
+
+
+# ------------------------------------------------------------------- vector proxes (sorted-L1)
+def r_proxvec(A, ctx, scope, rule="R-PROXVEC"):
+    ctx.rule(rule, "vector proxes of convex non-separable penalties (SLOPE): at the output u of prox_vec "
+             "the one-sided directional derivative of 0.5 |u - x|^2 + stepsize * value(u), taken from "
+             "the penalty's own value() lifted along the direction, is non-negative for the coordinate "
+             "directions, the tied-cluster directions and the sign directions of the k largest inputs "
+             "(necessary for a minimiser of a convex objective; compared at the region's witness)")
+    prog = A.prog
+    n = 0
+    XS = [(1.0, 0.9, 0.1), (3.0, -2.0, 0.5), (0.3, 0.2, -0.1), (-1.5, 1.4, 1.3), (0.07, 2.0, -0.65), (0.9, -1.0, 0.95)]
+    for cls in prog.penalties:
+        pv = cls.find_method("prox_vec")
+        if pv is None or pv.cls.name == "BasePenalty" or cls.find_method("prox_1d") is not None \
+                and cls.find_method("prox_1d").cls.name != "BasePenalty":
+            continue
+        spec = dict(prog.spec_of(cls) or [])
+        if "alphas" not in spec:
+            ctx.note(f"{rule}: {cls.name} skipped (no model of its attributes)")
+            continue
+        where = loc(pv, pv.node)
+        for alphas in ((1.2, 0.1, 0.05), (0.8, 0.8, 0.8), (1.0, 0.6, 0.3)):
+            for xs in XS:
+                key = f"{cls.fq}::prox_vec::alphas={alphas}::x={xs}"
+                try:
+                    vals = {"s": 1.0, "t": 1e-6}
+                    for i in range(3):
+                        vals[f"a{i}"] = alphas[i]
+                        vals[f"x{i}"] = xs[i]
+                    rg = Region(vals)
+                    L = RegionLifter(prog, rg, max_steps=20000)
+                    obj = Obj(cls, {"alphas": Vec([sym("a0"), sym("a1"), sym("a2")])})
+                    x = Vec([sym("x0"), sym("x1"), sym("x2")])
+                    u = [R(v) for v in L.call_function(pv, [x, sym("s")], self_obj=obj)]
+                    un = [rg.num(v) for v in u]
+                    dirs = []
+                    for i in range(3):
+                        for sg in (1, -1):
+                            d = [0, 0, 0]
+                            d[i] = sg
+                            dirs.append(d)
+                    # clusters of equal |u|
+                    for i in range(3):
+                        for j in range(i + 1, 3):
+                            if abs(abs(un[i]) - abs(un[j])) < 1e-12 and abs(un[i]) > 1e-12:
+                                for sg in (1, -1):
+                                    d = [0, 0, 0]
+                                    d[i] = sg * (1 if un[i] > 0 else -1)
+                                    d[j] = sg * (1 if un[j] > 0 else -1)
+                                    dirs.append(d)
+                    order = sorted(range(3), key=lambda i: -abs(xs[i]))
+                    for k in (1, 2, 3):
+                        d = [0, 0, 0]
+                        for i in order[:k]:
+                            d[i] = 1 if xs[i] > 0 else -1
+                        dirs.append(d)
+                    worst = None
+                    for d in dirs:
+                        rg2 = Region(dict(vals))
+                        L2 = RegionLifter(prog, rg2, max_steps=20000)
+                        pt = Vec([u[i] + sym("t") * const(d[i]) for i in range(3)])
+                        val = R(L2.call_function(cls.find_method("value"), [pt], self_obj=obj))
+                        dv = rg2.num(substitute(derivative(val, ("sym", "t")), {("sym", "t"): const(0)}))
+                        slope = sum((un[i] - xs[i]) * d[i] for i in range(3)) + vals["s"] * dv
+                        if worst is None or slope < worst[0]:
+                            worst = (slope, d)
+                    n += 1
+                    ctx.ob(rule, key, worst[0] >= -1e-7,
+                           what=f"{cls.name}.prox_vec({xs}) with alphas {alphas} returns "
+                                f"({un[0]:.4g}, {un[1]:.4g}, {un[2]:.4g}) but the prox objective built from "
+                                f"{cls.name}.value() decreases along {worst[1]} (slope {worst[0]:.4g}): the "
+                                "output is not the minimiser", loc=where)
+                except Raised as e:
+                    n += 1
+                    ctx.ob(rule, key, False, what=f"{cls.name}.prox_vec raises: {e}", loc=where)
+                except (Unsupported, ZeroDivisionError) as e:
+                    ctx.ob(rule, key, None, detail=f"not lifted: {e}")
+    ctx.floor(rule, n, scope.get("floor", 12))
